@@ -1382,6 +1382,11 @@ func runC02(c *gen.Ctx) error {
 		c.Do("load", in)
 		c.E.Count("load-shape:" + in.Note)
 	}
+	// ... and the whole matrix {raw request, raw response, explicit expectation} x suite mode x run mode
+	// (shared with C07, op rawload there)
+	for _, in := range c07RawMatrix() {
+		c.Do("load", in)
+	}
 	// (2c) populateExpectedResponse called directly: stream types by number (unspecified, unknown) and
 	// request messages that no suite file can express (unregistered type, bytes that are no message)
 	for st := 0; st <= 7; st++ {
